@@ -29,6 +29,12 @@ def run(tier, seed):
     tlc_must_hold(r, "UriPairs (deep)")
     c.add_tlc(r, "all pairs of accepted URIs up to length 8 over {a,/} (thorough: 7 over {a,A,/}): the same laws on deeper paths and trailing slashes")
     cases += r.replay
+    # authorities with a port: the default ports of the two schemes are characters like any other (host:443 is not host)
+    ports = [('Chars = {"a", "A", "b", "/", "."} MaxLen = 5', 'Chars = {"a", "/", ":443", ":873"} MaxLen = 5')]
+    r = tlc("MC_UriPairs", cfg_with(wd, "MC_UriPairs.cfg", "pairs-ports.cfg", ports), workers=workers, xmx="8g", timeout=6000)
+    tlc_must_hold(r, "UriPairs (ports)")
+    c.add_tlc(r, "all pairs of accepted URIs up to 5 tokens over {a,/,:443,:873}: the same laws when authorities carry the schemes' default ports")
+    cases += r.replay
     r = tlc("MC_UriTriples", cfg_with(wd, "MC_UriTriples.cfg", "triples.cfg", [("MaxLen = 5", "MaxLen = 4" if quick else "MaxLen = 5")]),
             workers=workers, xmx="8g", timeout=6000)
     tlc_must_hold(r, "UriTriples")
